@@ -179,6 +179,13 @@ import random as _random
 
 def _periodic_inputs(rng, with_delim=True):
     """data with many (overlapping, aligned and unaligned) occurrences: repetitions of a short unit"""
+    if rng.random() < 0.3:
+        # whole-byte patterns overlapping themselves at byte shifts (the byte-aligned fast paths)
+        unit = [rng.random() < 0.5 for _ in range(8)] if rng.random() < 0.6 else [rng.random() < 0.5] * 8
+        reps = rng.randint(2, 9)
+        data = [rng.random() < 0.5 for _ in range(rng.choice([0, 0, 8, 3]))] + unit * reps + [rng.random() < 0.5 for _ in range(rng.choice([0, 0, 8, 5]))]
+        pat = unit * rng.choice([1, 2, 2, 3])
+        return data, pat
     unit = [rng.random() < 0.5 for _ in range(rng.choice([1, 2, 3, 4, 8, 8, 16]))]
     if rng.random() < 0.4:
         unit = [unit[0]] * len(unit)
@@ -441,3 +448,176 @@ def contains_post(C, args, kwargs, out):
         yield ('sound', sym.mk_bool(z3.Exists([w], occurs(w))))
     else:
         yield ('complete', sym.mk_bool(z3.Not(occurs(q))))
+
+
+# ---- bounded sweep of the whole search family in both bit numberings, including data longer than the 8192-bit chunks of the
+# ---- reverse / lsb0 searches (C07's quantifier names them; C12: the lsb0 result is the msb0 result on the bit-reversed operands)
+def _long_inputs(rng):
+    """sparse occurrences of a short pattern in data long enough to need several chunks"""
+    n = rng.choice([8192, 8193, 8200, 9000, 16384 + 7, 17000])
+    m = rng.choice([1, 3, 8, 9, 16])
+    pat = [rng.random() < 0.5 for _ in range(m)]
+    data = [rng.random() < 0.5 for _ in range(n)]
+    for _ in range(rng.randint(0, 6)):                       # plant a few, some at the chunk borders and the very ends
+        at = rng.choice([0, n - m, 8192 - m, 8192, n - 8192, n - 8192 - m, rng.randrange(0, n - m + 1), 8 * rng.randrange(0, (n - m) // 8 + 1)])
+        if 0 <= at <= n - m:
+            data[at:at + m] = pat
+    return data, pat
+
+
+def _rv(xs, on):
+    return xs[::-1] if on else xs
+
+
+def _sweep_shapes(extra_names, gen_extra, states, nbs=1, long_ok=True, modes=(False, True)):
+    out = []
+    for cls, st in states:
+        for ba in BA_KINDS:
+            for lsb0 in modes:
+                def build(S, interp, cls=cls, st=st, ba=ba):
+                    o = m_bits(S, interp, 'self', cls, st)
+                    ops = [m_operand(S, interp, f'bs{i}', ('obj', 'Bits', 'immutable'), o) for i in range(nbs)]
+                    return [o] + ops + [mk_opt(S, nm, 'int') for nm in extra_names] + [ba], {}
+
+                def real(vals, cls=cls, st=st, ba=ba):
+                    o = r_bits(vals, 'self', cls, st)
+                    ops = [r_operand(vals, f'bs{i}', ('obj', 'Bits', 'immutable'), o) for i in range(nbs)]
+                    return [o] + ops + [vals[nm] for nm in extra_names] + [ba], {}
+
+                def gen(rng, cls=cls):
+                    long = long_ok and rng.random() < 0.08
+                    data, pat = _long_inputs(rng) if long else _periodic_inputs(rng)
+                    v = {'self': data, 'bs0': pat}
+                    for i in range(1, nbs):
+                        v[f'bs{i}'] = [rng.random() < 0.5 for _ in range(rng.choice([0, 1, len(pat), 8, 3]))]
+                    if cls in ('ConstBitStream', 'BitStream'):
+                        v['self.pos'] = rng.randint(0, len(data))
+                    v.update(gen_extra(rng, len(data)))
+                    if long:
+                        # whole-range searches: the point of the long inputs is the chunking, not the window handling
+                        n = len(data)
+                        for nm, choices in (('start', [None, 0, 0, 5, 8192 - 3]), ('end', [None, n, n, n - 5]), ('count', [None, None, 1000, 3])):
+                            if nm in v:
+                                v[nm] = rng.choice(choices)
+                    return v
+                out.append(Shape(f'{cls}/{st}/ba={ba}/lsb0={lsb0}', build, real, gen=gen, stable=False, bounded_only=True,
+                                 opts={'lsb0': True} if lsb0 else {}, props=({'C07', 'C12'} if lsb0 else {'C07'})))
+    return out
+
+
+_se = (['start', 'end'], lambda rng, n: {'start': rng.choice([None, None, 0, rng.randint(-n - 2, n + 2)]), 'end': rng.choice([None, None, n, rng.randint(-n - 2, n + 2)])})
+_sec = (['start', 'end', 'count'], lambda rng, n: {'start': rng.choice([None, 0, 0, rng.randint(-n - 2, n + 2)]), 'end': rng.choice([None, n, n, rng.randint(-n - 2, n + 2)]),
+                                                    'count': rng.choice([None, None, 0, 1, 2, 5, 1000, -1])})
+
+
+def _find_sweep_spec(first):
+    def f(C, self, bs, start=None, end=None, bytealigned=None):
+        V = bits(self)
+        D, P = _rv(_concrete(V), C.lsb0), _rv(_concrete(promote_bits(C, bs)), C.lsb0)
+        if not P:
+            C.throw('ValueError')
+        s, e = window(C, V, start, end)
+        ba = C.option('bytealigned') if bytealigned is None else bytealigned
+        ms = _brute(D, P, s, e, ba)
+        if not ms:
+            return ()
+        p = ms[0] if first else ms[-1]
+        if '_pos' in self.attrs:
+            self.attrs['_pos'] = p
+        return (p,)
+    return f
+
+
+_PLAIN = [s for s in SELF_STATES_MEM if s[0] in ('Bits', 'BitArray')]
+_STRM = [s for s in SELF_STATES_MEM if s[0] in ('ConstBitStream', 'BitStream')]
+for _nm, _first in (('find', True), ('rfind', False)):
+    contract(f'bits.Bits.{_nm}@sweep', target=f'bits.Bits.{_nm}', shapes=_sweep_shapes(*_se, states=_PLAIN), props={'C07'}, kind='public',
+             note=f"{_nm} against the brute-force scan in both bit numberings, aligned and not, short periodic and > 8192-bit data  (BOUNDED)")(_find_sweep_spec(_first))
+    contract(f'bitstream.ConstBitStream.{_nm}@sweep', target=f'bitstream.ConstBitStream.{_nm}', shapes=_sweep_shapes(*_se, states=_STRM), props={'C07', 'C06'},
+             kind='public', note=f"as Bits.{_nm}; pos moves to the match  (BOUNDED)")(_find_sweep_spec(_first))
+
+
+def _findall_sweep(C, self, bs, start=None, end=None, count=None, bytealigned=None):
+    V = bits(self)
+    D, P = _rv(_concrete(V), C.lsb0), _rv(_concrete(promote_bits(C, bs)), C.lsb0)
+    if count is not None and count < 0:
+        C.throw('ValueError')
+    if not P:
+        C.throw('ValueError')
+    s, e = window(C, V, start, end)
+    ba = C.option('bytealigned') if bytealigned is None else bytealigned
+    ms = _brute(D, P, s, e, ba)
+    return ('gen', ms if count is None else ms[:count])
+
+
+contract('bits.Bits.findall@sweep', target='bits.Bits.findall', shapes=_sweep_shapes(*_sec, states=SELF_STATES_MEM), props={'C07'}, kind='public',
+         note="findall in both bit numberings incl. > 8192-bit data: all matching positions in increasing order, at most count  (BOUNDED)")(_findall_sweep)
+
+
+def _piece(C, self, V, a, b):
+    n = V.n
+    return mk_bits(C, self.cls, sub(V, n - b, n - a) if C.lsb0 else sub(V, a, b), pos=0)
+
+
+def _split_sweep(C, self, delimiter, start=None, end=None, count=None, bytealigned=None):
+    V = bits(self)
+    D, P = _rv(_concrete(V), C.lsb0), _rv(_concrete(promote_bits(C, delimiter)), C.lsb0)
+    if not P:
+        C.throw('ValueError')
+    s, e = window(C, V, start, end)
+    ba = C.option('bytealigned') if bytealigned is None else bytealigned
+    if count is not None and count < 0:
+        C.throw('ValueError')
+    if count == 0:
+        return ('gen', [])
+    ms = _nonoverlap(_brute(D, P, s, e, ba), len(P))
+    cuts = [s] + ms + [e]
+    pieces = [(cuts[i], cuts[i + 1]) for i in range(len(cuts) - 1)]
+    if count is not None:
+        pieces = pieces[:count]
+    return ('gen', [_piece(C, self, V, a, b) for a, b in pieces])
+
+
+# (lsb0 split is not a mirror of msb0 split -- the repository's own test pins pieces that still *start* with the delimiter, taken
+#  from the least significant end -- and C12 does not list split; it is left unclaimed)
+contract('bits.Bits.split@sweep', target='bits.Bits.split', shapes=_sweep_shapes(*_sec, states=SELF_STATES_MEM, long_ok=False, modes=(False,)), props={'C07'}, kind='public',
+         note="split with negative / None / out-of-range windows and counts  (BOUNDED)")(_split_sweep)
+
+
+def _replace_sweep(stream):
+    def f(C, self, old, new, start=None, end=None, count=None, bytealigned=None):
+        from .bits_ops import _set_bits
+        V = bits(self)
+        D, P, N = (_rv(_concrete(x), C.lsb0) for x in (V, promote_bits(C, old), promote_bits(C, new)))
+        if count == 0:
+            return 0
+        if not P:
+            C.throw('ValueError')
+        s, e = window(C, V, start, end)
+        ba = C.option('bytealigned') if bytealigned is None else bytealigned
+        ms = _nonoverlap(_brute(D, P, s, e, ba), len(P))
+        if count is not None:
+            ms = ms[:count]
+        outb = []
+        p = 0
+        for m in ms:
+            outb += D[p:m] + N
+            p = m + len(P)
+        outb += D[p:]
+        if ms:
+            _set_bits(C, self, BA.concrete(_rv(outb, C.lsb0)))
+        if stream and '_pos' in self.attrs and len(outb) != len(D):
+            self.attrs['_pos'] = 0
+        return len(ms)
+    return f
+
+
+_MUT_MEM = [s for s in MUT_STATES]
+_secr = (['start', 'end', 'count'], lambda rng, n: {'start': rng.choice([None, 0, 0, rng.randint(-n - 2, n + 2)]), 'end': rng.choice([None, n, n, rng.randint(-n - 2, n + 2)]),
+                                                     'count': rng.choice([None, None, 0, 1, 2, 5, 1000])})     # (a negative count is not specified for replace)
+contract('bitarray_.BitArray.replace@sweep', target='bitarray_.BitArray.replace', shapes=_sweep_shapes(*_secr, states=[s for s in _MUT_MEM if s[0] == 'BitArray'], nbs=2, long_ok=False),
+         props={'C07', 'C03'}, kind='public', note="replace in both bit numberings  (BOUNDED)")(_replace_sweep(False))
+contract('bitstream.BitStream.replace@sweep', target='bitstream.BitStream.replace', shapes=_sweep_shapes(*_secr, states=[s for s in _MUT_MEM if s[0] == 'BitStream'], nbs=2, long_ok=False),
+         props={'C07', 'C03', 'C06'}, kind='public', note="as BitArray.replace; pos reset iff the length changed  (BOUNDED)")(_replace_sweep(True))
+for _q in ('bits.Bits.findall@sweep', 'bits.Bits.split@sweep'):
+    _R[_q].inline = True
